@@ -73,6 +73,26 @@ func Generate(t *tape.Tape, p Profile) *World {
 	if p.NamedComposite && t.Chance(1, 3) {
 		g.assignableCluster()
 	}
+	if w.HasExt && t.Chance(1, 3) {
+		// same plugin on same-named types of same-named packages (ext.T / other/ext.T) and on a
+		// type of a package named like the package under generation
+		plugin := []string{"equal", "compare", "hash", "clone", "deepcopy", "gostring"}[t.Intn(6)]
+		for _, T := range []*Ty{Ptr(Named("ext", "T")), Ptr(Named("oext", "T")), Ptr(Named("op", "User"))} {
+			if c := g.simple(plugin, T); c != nil && t.Intn(4) > 0 {
+				if f := g.finish(c, ""); f != nil {
+					w.Calls = append(w.Calls, f)
+				}
+			}
+		}
+	}
+	if p.Nested && t.Chance(1, 4) {
+		if c := g.deepNest(); c != nil {
+			w.Calls = append(w.Calls, c)
+		}
+	}
+	if p.Forms && t.Chance(1, 3) {
+		w.PName = []string{"pdemo", "main_p", "pkgwithalongname"}[t.Intn(3)]
+	}
 	if p.Forms {
 		g.pairCalls()
 	}
@@ -245,7 +265,7 @@ func (g *gen) structRef(self *Decl, allowSelf bool) *Ty {
 		}
 	}
 	if g.w.HasExt {
-		cands = append(cands, Named("ext", "T"), Named("ext", "U"), Named("ext", "V"), Named("ext", "X"), Named("oext", "T"), Named("oext", "W"))
+		cands = append(cands, Named("ext", "T"), Named("ext", "U"), Named("ext", "V"), Named("ext", "X"), Named("oext", "T"), Named("oext", "W"), Named("op", "G"), Named("op", "User"))
 	}
 	if len(cands) == 0 {
 		return nil
@@ -443,7 +463,7 @@ func (g *gen) simple(plugin string, T *Ty) *Call {
 func usesExt(t *Ty) bool {
 	s := map[string]bool{}
 	t.uses(s)
-	return s["ext"] || s["oext"]
+	return s["ext"] || s["oext"] || s["op"]
 }
 
 // elemFor draws an element type suitable for list helpers of a plugin.
@@ -722,16 +742,29 @@ func (g *gen) genUserFunc() {
 	if w.HasQ && t.Bool() {
 		pkg = "q"
 	}
-	// skip if a derive call of that very name exists in the package
-	for _, c := range append(append([]*Call{}, w.Calls...), w.QCalls...) {
-		if c.Pkg == pkg && w.FuncName(c) == n {
+	// skip if a derive call of that very name exists in the package (at any nesting depth)
+	taken := false
+	var visit func(c *Call)
+	visit = func(c *Call) {
+		if c == nil {
 			return
 		}
-		for _, a := range c.Args {
-			if a.Nested != nil && a.Nested.Pkg == pkg && w.FuncName(a.Nested) == n {
-				return
-			}
+		if c.Pkg == pkg && w.FuncName(c) == n {
+			taken = true
 		}
+		for _, a := range c.Args {
+			visit(a.Nested)
+		}
+		if c.Curried != nil {
+			visit(c.Curried.Nested)
+		}
+		visit(c.Pair)
+	}
+	for _, c := range append(append([]*Call{}, w.Calls...), w.QCalls...) {
+		visit(c)
+	}
+	if taken {
+		return
 	}
 	text := fmt.Sprintf("func %s(a, b complex64) complex64 { return a - b }\n\nvar _ = %s(1, 2)\n", n, n)
 	w.UserFuncs = append(w.UserFuncs, UserFunc{Pkg: pkg, Name: n, Text: text, File: t.Intn(w.NFiles)})
@@ -809,4 +842,31 @@ func (g *gen) pairCalls() {
 			w.Calls = append(w.Calls[:i+1:i+1], w.Calls[i+2:]...)
 		}
 	}
+}
+
+// deepNest builds a chain of 3-4 derive calls, each feeding the next, with
+// plugin names repeating along the chain: every link only becomes typable
+// one generation pass after the one below it.
+//   deriveSort(deriveFilter(p, deriveFilter(q, deriveKeys(m))))
+func (g *gen) deepNest() *Call {
+	t := g.t
+	k := Basic([]string{"string", "int", "int64"}[t.Intn(3)])
+	m := Map(k, g.leaf())
+	cur := &Call{Plugin: "keys", Args: []Arg{p("m", m)}, NRes: 1, ResTy: Slice(k)}
+	n := 2 + t.Intn(2)
+	last := ""
+	for i := 0; i < n; i++ {
+		pl := []string{"filter", "sort", "unique", "filter", "takewhile"}[t.Intn(5)]
+		if i == n-1 && pl == last && t.Bool() {
+			pl = "sort"
+		}
+		last = pl
+		switch pl {
+		case "filter", "takewhile":
+			cur = &Call{Plugin: pl, Args: []Arg{p(fmt.Sprintf("pred%d", i), Func([]*Ty{k}, []*Ty{Basic("bool")})), {Nested: cur, Ty: Slice(k)}}, NRes: 1, ResTy: Slice(k)}
+		default:
+			cur = &Call{Plugin: pl, Args: []Arg{{Nested: cur, Ty: Slice(k)}}, NRes: 1, ResTy: Slice(k)}
+		}
+	}
+	return g.finish(cur, "")
 }
